@@ -208,6 +208,256 @@ func errClass(err error) string {
 	return "other"
 }
 
+
+// ---- program generator (section 6) -----------------------------------------------------------------------------------
+
+type asm struct {
+	code   []byte
+	labels map[int]int   // label id -> position
+	fixups map[int][]int // label id -> positions of the 2-byte operands to patch
+}
+
+func newAsm() *asm { return &asm{labels: map[int]int{}, fixups: map[int][]int{}} }
+func (a *asm) op(b ...byte) { a.code = append(a.code, b...) }
+func (a *asm) push(v *big.Int) {
+	b := v.Bytes()
+	if len(b) == 0 {
+		b = []byte{0}
+	}
+	a.code = append(a.code, byte(0x5f+len(b)))
+	a.code = append(a.code, b...)
+}
+func (a *asm) pushN(n int64) { a.push(big.NewInt(n)) }
+func (a *asm) pushLabel(id int) {
+	a.code = append(a.code, 0x61, 0, 0)
+	a.fixups[id] = append(a.fixups[id], len(a.code)-2)
+}
+func (a *asm) label(id int) { a.labels[id] = len(a.code); a.code = append(a.code, 0x5b) }
+func (a *asm) finish() []byte {
+	for id, fs := range a.fixups {
+		pos, ok := a.labels[id]
+		if !ok {
+			pos = len(a.code) + 7 // dangling label: an invalid destination
+		}
+		for _, f := range fs {
+			a.code[f], a.code[f+1] = byte(pos>>8), byte(pos)
+		}
+	}
+	return a.code
+}
+
+var arithOps = []byte{0x01, 0x02, 0x03, 0x04, 0x05, 0x06, 0x07, 0x0a, 0x0b, 0x10, 0x11, 0x12, 0x13, 0x14, 0x16, 0x17, 0x18, 0x1a, 0x1b, 0x1c, 0x1d}
+var envOps = []byte{0x30, 0x32, 0x33, 0x34, 0x36, 0x38, 0x3a, 0x41, 0x42, 0x43, 0x44, 0x45, 0x58, 0x59, 0x5a, 0x3d}
+
+// genProgram: a mostly-valid program over the modelled opcode subset: arithmetic on lattice/random operands, memory and
+// SHA3 traffic at small (sometimes huge) offsets, call-data and code copies, DUP/SWAP at random depths, forward jumps,
+// conditional jumps, counted loops, occasional junk bytes / truncated PUSH / bad jump targets, and a RETURN/REVERT/STOP tail.
+func genProgram(r *hx.Rng, operand func(*hx.Rng) *big.Int) []byte {
+	a := newAsm()
+	nextLabel := 0
+	depth := 0 // approximate stack depth
+	smallOff := func() *big.Int {
+		switch r.Intn(40) {
+		case 0:
+			return new(big.Int).Lsh(big.NewInt(1), uint(10+r.Intn(56)))
+		case 1:
+			return operand(r)
+		default:
+			return big.NewInt(int64(r.Intn(200)))
+		}
+	}
+	smallLen := func() *big.Int {
+		switch r.Intn(30) {
+		case 0:
+			return big.NewInt(0)
+		case 1:
+			return operand(r)
+		default:
+			return big.NewInt(int64(r.Intn(100)))
+		}
+	}
+	n := 2 + r.Intn(14)
+	for i := 0; i < n; i++ {
+		sel := r.Intn(64)
+		switch {
+		case sel >= 62:
+			sel = 15
+		case sel >= 60:
+			sel = 14
+		default:
+			sel = sel % 14
+		}
+		switch sel {
+		case 0, 1, 2: // binary arithmetic
+			a.push(operand(r))
+			a.push(operand(r))
+			a.op(arithOps[r.Intn(len(arithOps))])
+			depth++
+		case 3: // unary / ternary
+			if r.Bool() {
+				a.push(operand(r))
+				a.op([]byte{0x15, 0x19}[r.Intn(2)])
+			} else {
+				a.push(operand(r))
+				a.push(operand(r))
+				a.push(operand(r))
+				a.op([]byte{0x08, 0x09}[r.Intn(2)])
+			}
+			depth++
+		case 4: // arithmetic on what is on the stack
+			if depth >= 2 {
+				a.op(arithOps[r.Intn(len(arithOps))])
+				depth--
+			} else {
+				a.op(envOps[r.Intn(len(envOps))])
+				depth++
+			}
+		case 5: // MSTORE / MSTORE8
+			a.push(operand(r))
+			a.push(smallOff())
+			a.op([]byte{0x52, 0x53}[r.Intn(2)])
+		case 6: // MLOAD
+			a.push(smallOff())
+			a.op(0x51)
+			depth++
+		case 7: // SHA3
+			a.push(smallLen())
+			a.push(smallOff())
+			a.op(0x20)
+			depth++
+		case 8: // CALLDATALOAD / CALLDATACOPY / CODECOPY
+			switch r.Intn(3) {
+			case 0:
+				a.push(smallOff())
+				a.op(0x35)
+				depth++
+			default:
+				a.push(smallLen())
+				a.push(smallOff())
+				a.push(smallOff())
+				a.op([]byte{0x37, 0x39}[r.Intn(2)])
+			}
+		case 9: // DUP / SWAP / POP (mostly within the current depth)
+			k := r.Intn(16)
+			if depth > 0 && r.Intn(10) > 0 {
+				k = r.Intn(depth)
+				if k > 15 {
+					k = 15
+				}
+			}
+			switch r.Intn(3) {
+			case 0:
+				a.op(byte(0x80 + k))
+				depth++
+			case 1:
+				if depth > 1 && r.Intn(10) > 0 && k >= depth-1 {
+					k = depth - 2
+				}
+				a.op(byte(0x90 + k))
+			default:
+				if depth > 0 || r.Intn(10) == 0 {
+					a.op(0x50)
+					depth--
+				}
+			}
+		case 10: // forward jump over some bytes
+			id := nextLabel
+			nextLabel++
+			a.pushLabel(id)
+			a.op(0x56)
+			for j := r.Intn(4); j > 0; j-- {
+				a.op(byte(r.U64()))
+			}
+			if r.Intn(20) > 0 {
+				a.label(id)
+			}
+		case 11: // conditional forward jump
+			id := nextLabel
+			nextLabel++
+			a.push(operand(r))
+			if r.Bool() {
+				a.op(0x15)
+			}
+			a.pushLabel(id)
+			a.op(0x57)
+			a.push(operand(r))
+			a.op(0x50)
+			if r.Intn(20) > 0 {
+				a.label(id)
+			}
+		case 12: // counted loop: PUSH n; L: PUSH1 1; SWAP1; SUB; DUP1; PUSH L; JUMPI; POP
+			id := nextLabel
+			nextLabel++
+			a.pushN(int64(1 + r.Intn(6)))
+			a.label(id)
+			a.op(0x60, 0x01, 0x90, 0x03, 0x80)
+			a.pushLabel(id)
+			a.op(0x57, 0x50)
+		case 13: // environment
+			a.op(envOps[r.Intn(len(envOps))])
+			depth++
+		case 14: // jump to a computed / arbitrary destination
+			if r.Intn(3) == 0 {
+				a.push(operand(r))
+			} else {
+				a.pushN(int64(r.Intn(len(a.code) + 20)))
+			}
+			a.op([]byte{0x56, 0x57}[r.Intn(2)])
+		case 15: // junk: any byte, or a PUSH truncated by the end of the code later on
+			if r.Intn(3) == 0 {
+				a.op(byte(r.U64()))
+			} else {
+				a.op(byte(0x60 + r.Intn(32)))
+				for j := r.Intn(3); j > 0; j-- {
+					a.op(byte(r.U64()))
+				}
+			}
+			depth++
+		}
+		if depth < 0 {
+			depth = 0
+		}
+	}
+	switch r.Intn(8) {
+	case 0:
+		a.op(0x00)
+	case 1: // fall off the end
+	case 2: // REVERT
+		a.push(smallLen())
+		a.push(smallOff())
+		a.op(0xfd)
+	case 3: // stack-limit loop: L: PUSH1 0 PUSH1 0 PUSH L JUMP
+		id := nextLabel
+		a.label(id)
+		a.op(0x60, 0x00, 0x60, 0x00)
+		a.pushLabel(id)
+		a.op(0x56)
+	default: // store the top of the stack and return the memory around it
+		off := int64(r.Intn(64))
+		if depth > 0 {
+			a.pushN(off)
+			a.op(0x52)
+		}
+		if r.Intn(4) > 0 {
+			a.pushN(32 + int64(r.Intn(40)))
+			a.pushN(off - int64(r.Intn(int(off)+1)))
+		} else {
+			a.push(smallLen())
+			a.push(smallOff())
+		}
+		a.op(0xf3)
+	}
+	return a.finish()
+}
+
+func failClass(err error) string {
+	c := errClass(err)
+	if c == "other" && err != nil && strings.Contains(err.Error(), "gas uint64 overflow") {
+		return "overflow"
+	}
+	return c
+}
+
 func main() {
 	run := hx.Start()
 	rng := hx.NewRng(run.Seed)
@@ -749,5 +999,46 @@ func main() {
 	}
 
 	lap("gas")
+	// ---- 6. whole programs over the modelled opcode subset --------------------------------------------------------
+	rp := rng.Fork(5)
+	nProg := 6000
+	if run.Thorough() {
+		nProg = 400000
+	}
+	for i := 0; i < nProg; i++ {
+		ep := epochs[0]
+		if rp.Intn(3) == 0 {
+			ep = epochs[rp.Intn(len(epochs))]
+		}
+		code := genProgram(rp, randOperand)
+		input := rp.Bytes(rp.Intn(80))
+		gas := uint64(100000)
+		switch rp.Intn(5) {
+		case 0:
+			gas = uint64(rp.Intn(400))
+		case 1:
+			gas = uint64(rp.Intn(4000))
+		}
+		line := fmt.Sprintf("prog %s %s %d %s %s", ep.name, ep.gt, gas, hx.Hex(code), hx.Hex(input))
+		run.Current(line)
+		out := hx.Safe(func() string {
+			ret, left, err := e.run(ep.cfg, 0, code, input, gas, nil)
+			if err != nil {
+				if strings.Contains(err.Error(), "execution reverted") {
+					return fmt.Sprintf("revert %s %d", hx.Hex(ret), left)
+				}
+				return "fail " + failClass(err)
+			}
+			return fmt.Sprintf("ok %s %d", hx.Hex(ret), left)
+		})
+		run.Case(line, out)
+		f := strings.Fields(out)
+		if f[0] == "fail" {
+			run.Count("prog:fail:" + f[1])
+		} else {
+			run.Count("prog:" + f[0])
+		}
+	}
+	lap("prog")
 	run.Finish()
 }
